@@ -194,6 +194,11 @@ def o2(prog, ctx):
 
 
 def run(prog, ctx):
+    ctx.rule("O5", "every file an object opens in append mode is truncated by its constructor (rule R7 of C07): a second identical run into the "
+                   "same output folder must not add its rows to the rows of the first")
+    from . import c07 as _c07
+    _c07.r7(prog, ctx, tag="O5", why="a repeated run with the same command line into the same folder (--force) appends its rows to those of "
+            "the previous run, so the two runs do not produce identical files")
     ctx.rule("O1", "set-kind expressions are inferred (locals, attributes by name, params via call sites, returns) with element kinds; "
                    "hash-dependent order is propagated from possibly-str sets through lists, dict insertion order, returns, "
                    "parameters and attributes; a sink is a write/join/serialisation, positional selection, enumerate, first-match "
